@@ -3,6 +3,7 @@
 cd "$(dirname "$0")" || exit 2
 set -e
 for f in spec/*.tla; do
+  case "$f" in *_TTrace_*|*/Dbg_*) continue;; esac
   (cd spec && java -cp /opt/veriftools/tla/tla2tools.jar:/opt/veriftools/tla/CommunityModules-deps.jar tla2sany.SANY "$(basename "$f")" >/tmp/sany.$$ 2>&1) || { cat /tmp/sany.$$; rm -f /tmp/sany.$$; echo "SANY failed on $f"; exit 1; }
 done
 rm -f /tmp/sany.$$
